@@ -65,3 +65,107 @@ pub(crate) fn gc_decision(gc_disabled: bool) -> Option<bool> {
 
 /// Byte written over arena memory when an arena is dropped.
 pub const POISON: u8 = 0xDB;
+
+/// Scheduling-point interception for the out-of-tree controlled scheduler (C20).
+///
+/// The wrappers have the same size and layout as the std atomics they wrap; every
+/// operation first reports a scheduling point to a process-global callback
+/// (a no-op when none is installed).
+pub mod sync {
+    use std::sync::atomic::AtomicUsize;
+    use std::sync::atomic::Ordering;
+
+    /// Callback: `(site, address, operation)`.
+    pub type PointFn = fn(&'static str, usize, &'static str);
+
+    static POINT: AtomicUsize = AtomicUsize::new(0);
+
+    /// Install (or remove) the scheduling-point callback.
+    pub fn set_point_hook(f: Option<PointFn>) {
+        POINT.store(f.map(|f| f as usize).unwrap_or(0), Ordering::SeqCst);
+    }
+
+    /// Report a scheduling point.
+    #[inline]
+    pub fn point(site: &'static str, addr: usize, op: &'static str) {
+        let p = POINT.load(Ordering::SeqCst);
+        if p != 0 {
+            let f: PointFn = unsafe { std::mem::transmute::<usize, PointFn>(p) };
+            f(site, addr, op);
+        }
+    }
+
+    /// `std::sync::atomic::AtomicU32` with a scheduling point before every operation.
+    #[repr(transparent)]
+    #[derive(Debug, Default)]
+    pub struct AtomicU32(std::sync::atomic::AtomicU32);
+
+    impl AtomicU32 {
+        /// Same as std.
+        pub const fn new(v: u32) -> Self {
+            AtomicU32(std::sync::atomic::AtomicU32::new(v))
+        }
+        fn addr(&self) -> usize {
+            self as *const Self as usize
+        }
+        /// Same as std.
+        pub fn load(&self, o: Ordering) -> u32 {
+            point("AtomicU32", self.addr(), "load");
+            self.0.load(o)
+        }
+        /// Same as std.
+        pub fn store(&self, v: u32, o: Ordering) {
+            point("AtomicU32", self.addr(), "store");
+            self.0.store(v, o)
+        }
+        /// Same as std.
+        pub fn fetch_add(&self, v: u32, o: Ordering) -> u32 {
+            point("AtomicU32", self.addr(), "fetch_add");
+            self.0.fetch_add(v, o)
+        }
+        /// Same as std.
+        pub fn fetch_sub(&self, v: u32, o: Ordering) -> u32 {
+            point("AtomicU32", self.addr(), "fetch_sub");
+            self.0.fetch_sub(v, o)
+        }
+        /// Same as std.
+        pub fn compare_exchange(&self, a: u32, b: u32, s: Ordering, f: Ordering) -> Result<u32, u32> {
+            point("AtomicU32", self.addr(), "compare_exchange");
+            self.0.compare_exchange(a, b, s, f)
+        }
+    }
+
+    impl allocative::Allocative for AtomicU32 {
+        fn visit<'a, 'b: 'a>(&self, visitor: &'a mut allocative::Visitor<'b>) {
+            visitor.visit_simple_sized::<Self>();
+        }
+    }
+
+    /// `std::sync::atomic::AtomicPtr` with a scheduling point before every operation.
+    #[repr(transparent)]
+    #[derive(Debug)]
+    pub struct AtomicPtr<T>(std::sync::atomic::AtomicPtr<T>);
+
+    impl<T> AtomicPtr<T> {
+        /// Same as std.
+        pub const fn new(p: *mut T) -> Self {
+            AtomicPtr(std::sync::atomic::AtomicPtr::new(p))
+        }
+        /// Same as std.
+        pub fn load(&self, o: Ordering) -> *mut T {
+            point("AtomicPtr", self as *const Self as usize, "load");
+            self.0.load(o)
+        }
+        /// Same as std.
+        pub fn store(&self, p: *mut T, o: Ordering) {
+            point("AtomicPtr", self as *const Self as usize, "store");
+            self.0.store(p, o)
+        }
+    }
+}
+
+/// Empty the calling thread's frozen-heap chunk cache (so that its destructor has nothing to
+/// release after the thread left the controlled scheduler).
+pub fn flush_thread_chunk_cache() {
+    crate::values::layout::heap::allocator::alloc::per_thread::verif_flush();
+}
